@@ -117,6 +117,15 @@ CHECKS.update({
    ref='DESIGN.md I.2 (C08)'),
 })
 
+CHECKS.update({
+ 'C17': dict(
+   technique='harness-enforced contracts (CBMC): comparator order axioms (loop-free), step contract of MessageMap::getNextPoll with the std::priority_queue algorithms as stubs that require a valid heap, window invariant preserved by selection and priority changes',
+   level='proof',
+   text='Message::isLessPollWeight is proved a strict weak order equal to (virtual time, priority, last poll time); one getNextPoll step selects a message to which no queued message is preferred, never moves the virtual time back, advances the selected message by exactly its priority and preserves the window invariant pollOrder <= lastPollOrder + priority for every queued message; setPollPriority/setUsedByCondition move a message at most to the end of the window; MessagePriorityQueue::push/remove keep entries unique and re-establish the heap precondition of the std:: algorithms. Bounded waiting and 1/p frequency follow from these by the argument in DESIGN.md (not machine-checked).',
+   note=TB + 'std::priority_queue heap algorithms are trusted stubs with an explicit "valid heap" precondition; queue capacity 6 in the model (symbolic contents); in-place change of the poll order of an already queued message by setPollPriority (without re-push) is not covered; 32 bit wrap of the virtual time excluded by precondition.',
+   ref='DESIGN.md I.2 (C17)'),
+})
+
 NOT_APPLICABLE = {
 }
 NOT_BUILT_REASON = 'no contract for this property is built in this revision (see DESIGN.md I.2); the property is not claimed'
